@@ -11,6 +11,7 @@ import (
 )
 
 func main() {
+	ev.GuardFor("C13")
 	r := ev.Start("C13")
 	e := &enum.E{R: r}
 	maxN := ev.Pick(r, 14, 40)
